@@ -1396,7 +1396,26 @@ theorem attach_consHead (cur : List V) (x : V) (gs : List (List V)) (h : gs ≠ 
 def grouping (sep : Sep) : Bool := match sep with | .none => true | _ => false
 
 /-- `x in frozenset(sep)` can be evaluated (`x` is hashable) -/
-def sepHashOK (sep : Sep) (x : V) : Bool := match sep with | .set _ => x.hashable | _ => true
+def sepHashOK (sep : Sep) (x : V) : Bool :=
+  match sep with
+  | .set _ => x.hashable
+  | .fn f => (match f x with | .ok _ => true | .error _ => false)
+  | _ => true
+
+theorem sepFnErr_none (f : Fn) : ∀ xs : List V, sepFnErr f xs = none → ∀ x ∈ xs, sepHashOK (.fn f) x = true := by
+  intro xs
+  induction xs with
+  | nil => intro _ x hx; cases hx
+  | cons y ys ih =>
+    intro h x hx
+    simp only [sepFnErr] at h
+    cases hy : f y with
+    | error e => rw [hy] at h; cases h
+    | ok v =>
+      rw [hy] at h
+      rcases List.mem_cons.mp hx with rfl | hx'
+      · simp [sepHashOK, hy]
+      · exact ih h x hx'
 
 theorem isSepE_ok (sep : Sep) (x : V) (h : sepHashOK sep x = true) :
     isSepE sep x = .ok (sepFn sep x) := by
@@ -1404,6 +1423,11 @@ theorem isSepE_ok (sep : Sep) (x : V) (h : sepHashOK sep x = true) :
   | none => rfl
   | scalar v => rfl
   | set vs => simp only [sepHashOK] at h; simp [isSepE, sepFn, h]
+  | fn f =>
+    simp only [sepHashOK] at h
+    cases hf : f x with
+    | error e => rw [hf] at h; cases h
+    | ok y => simp [isSepE, sepFn, hf]
 
 def splitActive (m : Option Nat) (cnt : Nat) : Bool :=
   match m with
@@ -1568,6 +1592,10 @@ theorem stage_ref (k : Kind) (hw : k.wf = true) (xs ys : List V) (h : refE k xs 
         by_cases hh : xs.all V.hashable = true
         · exact List.all_eq_true.mp hh x hx
         · simp [refE, splitE, hh] at h
+      | fn f =>
+        cases he : sepFnErr f xs with
+        | none => exact sepFnErr_none f xs he x hx
+        | some e => simp [refE, splitE, he] at h
     have hys : ys = (splitL (sepFn sep) (grouping sep) true m xs).map V.list := by
       cases sep with
       | none => simpa [refE, splitE, grouping] using h.symm
@@ -1577,6 +1605,10 @@ theorem stage_ref (k : Kind) (hw : k.wf = true) (xs ys : List V) (h : refE k xs 
         · simp only [refE, splitE, hh, Bool.not_true, Bool.false_eq_true, ↓reduceIte, Except.ok.injEq] at h
           simpa [grouping] using h.symm
         · simp [refE, splitE, hh] at h
+      | fn f =>
+        cases he : sepFnErr f xs with
+        | none => simpa [refE, splitE, he, grouping] using h.symm
+        | some e => simp [refE, splitE, he] at h
     subst hys
     have := fold_split sep m xs (Core.init (.split sep m)) rfl hall
     simp only [Core.init, List.isEmpty_nil, Nat.sub_zero] at this
